@@ -659,12 +659,12 @@ for kind, loops in (("UINT", False), ("NEGINT", False), ("FLOAT_CTRL", False), (
 # cbor_build_bytestring / cbor_build_stringn bodies (used by cbor_copy and by clients): fresh node + fresh buffer of exactly
 # `length` bytes holding the same bytes (ghost index), clean failure
 BUILDSTR_PROPS = {"C11": FUNC, "C06": FUNC + FRAME, "C13": FUNC + FRAME, "C01": SAFETY, "C20": SAFETY, "C04": FUNC}
-P(name="op_build_bytestring", props=dict(BUILDSTR_PROPS), lib=ITEMLIB, stubs=ITEM_STUBS + ["stubs/copy_ghost.c"],
+P(name="op_build_bytestring", replay="copy_oracle", props=dict(BUILDSTR_PROPS), lib=ITEMLIB, stubs=ITEM_STUBS + ["stubs/copy_ghost.c"],
   contracts=OPS_CONTRACTS + ["contracts/copy.h"], harness="harness/ops.c",
   defines=["H_BUILD_STR", "CALL=cbor_build_bytestring(src,in_len)"], enforce="cbor_build_bytestring",
   replace=["cbor_new_definite_bytestring"],
   must_exist=[r"cbor_build_bytestring\.postcondition\.4"], min_covers=3, cost=20)
-P(name="op_build_stringn", props=dict(BUILDSTR_PROPS, C16=[]), lib=ITEMLIB, stubs=ITEM_STUBS + ["stubs/copy_ghost.c"],
+P(name="op_build_stringn", replay="copy_oracle", props=dict(BUILDSTR_PROPS, C16=[]), lib=ITEMLIB, stubs=ITEM_STUBS + ["stubs/copy_ghost.c"],
   contracts=OPS_CONTRACTS + ["contracts/copy.h"], harness="harness/ops.c",
   defines=["H_BUILD_STR", "CALL=cbor_build_stringn((const char*)src,in_len)"], enforce="cbor_build_stringn",
   replace=["cbor_new_definite_string", "_cbor_unicode_codepoint_count/_cbor_unicode_codepoint_count__plain"],
@@ -761,6 +761,7 @@ COPY_PROPS = {"C11": FUNC + FRAME + ["loop"], "C06": FUNC + FRAME + SAFETY, "C13
 
 
 def COPY(kind, extra_defs=(), replace=(), loops=None, covers=2, **kw):
+    kw.setdefault("replay", "copy_oracle")
     P(name="copy_" + kind.lower() + kw.pop("suffix", ""), props=dict(COPY_PROPS), lib=COPYLIB, stubs=COPY_STUBS, contracts=COPY_CONTRACTS,
       harness="harness/copy.c", defines=["COPY_KIND_" + kind, "CBOR_PRETTY_PRINTER_OFF"] + list(extra_defs), enforce=None,
       also_verified=["cbor_copy", "_cbor_copy_int", "_cbor_copy_float_ctrl"], twins={"cbor_copy": "cbor_copy__child"},
@@ -777,10 +778,42 @@ for w in ("0", "1", "2", "3"):
          replace=["cbor_build_ctrl", "cbor_build_float2", "cbor_build_float4", "cbor_build_float8"])
 COPY("DEF_BYTESTRING", replace=["cbor_build_bytestring"])
 COPY("DEF_STRING", replace=["cbor_build_stringn"])
-COPY("ARRAY", extra_defs=["COPY_ARRAY_DEFINITE"], suffix="_definite", loops="loops/copy.json", loop_fingerprint={"cbor_copy": 4},
+# (goto-instrument runs out of memory, 16 GB, applying this loop contract inside cbor_copy: parked; see copy_array_* regions)
+COPY("ARRAY", tier="experimental", extra_defs=["COPY_ARRAY_DEFINITE"], suffix="_definite", loops="loops/copy.json", loop_fingerprint={"cbor_copy": 4},
      replace=["cbor_array_get/cbor_array_get__hered", "cbor_move/cbor_move__hered", "cbor_new_definite_array/cbor_new_definite_array__copy", "cbor_new_indefinite_array",
               "cbor_array_push", "cbor_decref/cbor_decref__owned"], mem_gb=20)
 COPY("TAG", replace=["cbor_tag_item/cbor_tag_item__hered", "cbor_move/cbor_move__hered", "cbor_build_tag", "cbor_decref/cbor_decref__owned"])
+
+# cbor_copy composite cases: goto-instrument runs out of memory applying a loop contract inside cbor_copy, so each loop is
+# verified as verbatim regions (pre / cond / body / post) extracted on every run (vlib/extract.py: cbor_copy_parts); lemma style
+COPYP_CONTRACTS = COPY_CONTRACTS + ["contracts/copy_parts.h"]
+COPYP_PROPS = {"C11": [], "C06": SAFETY, "C04": [], "C12": [], "C01": SAFETY, "C13": []}
+
+
+def COPYP(name, define, replace=(), covers=2, **kw):
+    P(name="copy_" + name, props=dict(COPYP_PROPS), lib=COPYLIB, stubs=COPY_STUBS, contracts=COPYP_CONTRACTS,
+      harness="harness/copy_parts.c", defines=[define, "CBOR_PRETTY_PRINTER_OFF"], extract="cbor_copy_parts", enforce=None,
+      also_verified=["cbor_copy"], replace=list(replace), min_covers=covers, cost=60, timeout=900, object_bits=10, replay="copy_oracle",
+      assumed=["cbor_copy__child: induction hypothesis (A1)", "cbor_decref__counted: hereditary release (A1)"], **kw)
+
+
+COPYP("array_pre", "H_COPY_ARRAY_PRE", ["cbor_new_definite_array", "cbor_new_indefinite_array"])
+COPYP("array_cond", "H_COPY_ARRAY_COND")
+COPYP("array_body", "H_COPY_ARRAY_BODY", ["cbor_copy/cbor_copy__child", "cbor_array_get/cbor_array_get__hered", "cbor_move/cbor_move__hered",
+                                          "cbor_decref/cbor_decref__counted", "_cbor_safe_to_multiply"], covers=4, mem_gb=20)
+COPYP("array_post", "H_COPY_ARRAY_POST", covers=1)
+COPY_BODY_REPL = ["cbor_copy/cbor_copy__child", "cbor_decref/cbor_decref__counted", "_cbor_safe_to_multiply"]
+for _t, _defs in (("bytestring", []), ("string", ["COPY_STR_IS_TEXT"])):
+    for _r, _rep, _cov in (("pre", ["cbor_new_indefinite_" + _t], 2), ("cond", [], 2), ("body", COPY_BODY_REPL, 3), ("post", [], 1)):
+        P(name="copy_%s_%s" % (_t, _r), props=dict(COPYP_PROPS), lib=COPYLIB, stubs=COPY_STUBS, contracts=COPYP_CONTRACTS,
+          harness="harness/copy_parts.c", defines=["H_COPY_STR_" + _r.upper(), "CBOR_PRETTY_PRINTER_OFF"] + _defs,
+          extract="cbor_copy_parts", enforce=None, also_verified=["cbor_copy"], replace=list(_rep), min_covers=_cov, cost=60,
+          timeout=900, object_bits=10, mem_gb=20 if _r == "body" else 10, replay="copy_oracle",
+          assumed=["cbor_copy__child: induction hypothesis (A1)", "cbor_decref__counted: hereditary release (A1)"])
+COPYP("map_pre", "H_COPY_MAP_PRE", ["cbor_new_definite_map", "cbor_new_indefinite_map"])
+COPYP("map_cond", "H_COPY_MAP_COND")
+COPYP("map_body", "H_COPY_MAP_BODY", COPY_BODY_REPL + ["cbor_map_add/cbor_map_add__copy"], covers=4, mem_gb=20)
+COPYP("map_post", "H_COPY_MAP_POST", covers=1)
 
 # ------------------------------------------------------------------------------------------------
 # cbor_load (C05 first: empty input)
@@ -843,7 +876,10 @@ CONT("cbor_new_definite_map", ["H_CTOR", "CALL=cbor_new_definite_map((size_t)nd)
 BUILDLIB = COPYLIB
 BUILD_STUBS = COPY_STUBS + ["stubs/builder_ghost.c"]
 BUILD_CONTRACTS = CONT_CONTRACTS + ["contracts/stack.h", "contracts/builder.h"]
-BUILD_PROPS = {"C02": FUNC + FRAME, "C05": [], "C04": [], "C06": SAFETY, "C01": SAFETY, "C19": [], "C13": [], "C17": FRAME}
+BUILD_PROPS = {"C02": FUNC + FRAME, "C05": [], "C04": [], "C06": SAFETY, "C01": SAFETY, "C19": [], "C13": [], "C17": FRAME, "C14": FUNC}
+# C14 (an item decodes the same whatever follows) depends on every push-down transition placing the item boundary exactly:
+# in the decode-layer proofs the obligations tagged C02 also count for C14
+DECODE_ALIAS = {"C14": ["C02"]}
 for top in ("EMPTY", "DEF_ARRAY", "INDEF_ARRAY", "MAP", "TAG", "BYTESTRING", "STRING"):
     bounded = False
     P(name="append_" + top.lower() + ("_bounded" if bounded else ""), props=dict(BUILD_PROPS), lib=BUILDLIB, stubs=BUILD_STUBS,
@@ -858,7 +894,7 @@ for top in ("EMPTY", "DEF_ARRAY", "INDEF_ARRAY", "MAP", "TAG", "BYTESTRING", "ST
       replace=["_cbor_builder_append__child", "_cbor_safe_to_multiply", "cbor_tag_set_item",
                "cbor_decref/cbor_decref__owned", "_cbor_stack_pop"],
       must_exist=[r"_cbor_builder_append\.postcondition\.5"] if top not in ("DEF_ARRAY", "INDEF_ARRAY", "MAP") else [r"_cbor_stack_pop\.precondition\.\d+"],
-      min_covers=1, cost=120, timeout=900, object_bits=10, mem_gb=20, replay="load_oracle",
+      min_covers=1, cost=120, timeout=900, object_bits=10, mem_gb=20, replay="load_oracle", tag_alias=DECODE_ALIAS,
       **(dict(kind="bounded", bound=MAP_BOUND) if bounded else {}))
 
 # builder callbacks: one push-down-automaton transition per head kind; any stack depth, any kind of open item
@@ -869,7 +905,8 @@ CB_REPLACE = ["_cbor_builder_append/_cbor_builder_append__handover", "_cbor_stac
               "cbor_new_null", "cbor_new_undef", "cbor_build_bool",
               "cbor_new_indefinite_array", "cbor_new_indefinite_map", "cbor_new_indefinite_bytestring", "cbor_new_indefinite_string",
               "cbor_new_tag", "cbor_new_definite_array", "cbor_new_definite_map"]
-CB_PROPS = {"C02": ["precondition"], "C05": [], "C06": SAFETY, "C19": [], "C01": SAFETY, "C04": [], "C13": [], "C15": ["precondition"]}
+CB_PROPS = {"C02": ["precondition"], "C05": [], "C06": SAFETY, "C19": [], "C01": SAFETY, "C04": [], "C13": [], "C15": ["precondition"],
+            "C14": ["precondition"]}
 
 
 def CB(name, call, kind, defs, covers=2, **kw):
@@ -877,7 +914,7 @@ def CB(name, call, kind, defs, covers=2, **kw):
       defines=["H_CALLBACK", "TOP_SIMPLE", "CALL=" + call, kind] + (defs if any(d.startswith("CB_MAY_FAIL_ON_LENGTH") for d in defs) else defs + ["CB_MAY_FAIL_ON_LENGTH=0"]),
       enforce=None, also_verified=["cbor_builder_" + name + "_callback"], replace=CB_REPLACE,
       must_exist=[r"_cbor_builder_append.*\.precondition\.\d+" if kind == "CB_LEAF" else r"_cbor_stack_push.*\.precondition\.\d+"],
-      min_covers=covers, cost=60, timeout=900, object_bits=10, **dict(dict(replay="load_oracle"), **kw))
+      min_covers=covers, cost=60, timeout=900, object_bits=10, tag_alias=DECODE_ALIAS, **dict(dict(replay="load_oracle"), **kw))
 
 
 for w, wc in (("8", 0), ("16", 1), ("32", 2), ("64", 3)):
@@ -940,7 +977,8 @@ for cbname, isbytes, typ in (("byte_string", True, "CBOR_TYPE_BYTESTRING"), ("st
           defines=["H_STRING_CALLBACK", "TOP_" + top, "STR_CALLBACK=cbor_builder_%s_callback" % cbname, "STR_TYPE=" + typ] +
                   (["STR_IS_BYTES"] if isbytes else []),
           enforce=None, also_verified=["cbor_builder_%s_callback" % cbname], replace=STRCB_REPLACE,
-          must_exist=[r"cbor_new_definite_\w+\.precondition\.\d+"], min_covers=2, cost=90, timeout=900, object_bits=10)
+          must_exist=[r"cbor_new_definite_\w+\.precondition\.\d+"], min_covers=2, cost=90, timeout=900, object_bits=10,
+          tag_alias=DECODE_ALIAS, replay="load_oracle")
 
 # the break head
 for top, cov in (("EMPTY", 1), ("DEF_ARRAY", 1), ("INDEF_ARRAY", 1), ("MAP", 2), ("TAG", 1), ("BYTESTRING", 1), ("STRING", 1)):
@@ -948,7 +986,7 @@ for top, cov in (("EMPTY", 1), ("DEF_ARRAY", 1), ("INDEF_ARRAY", 1), ("MAP", 2),
       harness="harness/builder.c", defines=["H_BREAK", "TOP_" + top] + (["VERIF_MAP_CAP=4"] if top == "MAP" else []),
       enforce=None, also_verified=["cbor_builder_indef_break_callback", "_cbor_is_indefinite"],
       replace=["_cbor_builder_append/_cbor_builder_append__handover", "_cbor_stack_pop"],
-      min_covers=cov, cost=60, timeout=900, object_bits=10)
+      min_covers=cov, cost=60, timeout=900, object_bits=10, tag_alias=DECODE_ALIAS, replay="load_oracle")
 
 # map add key / add pair: specification asserted by the harness on the real functions (see harness/ops.c MAP_LEMMA)
 for nm, d, fn in (("cont_map_add_key_lemma", "H_MAP_ADD_KEY", "_cbor_map_add_key"), ("cont_map_add_lemma", "H_MAP_ADD", "cbor_map_add")):
